@@ -146,13 +146,17 @@ func copyLocID(locID []byte) ([2]byte, error) {
 // * the starting RangePoint is the first IP of the Location, and we immediately know the LocID for this RangePoint
 // * the next RangePoint is the first IP _after_ the end of this Location, so it is marked as rangePointEnd, and the LocID is to be determined
 func (r *Rearranger) AddLocation(ipnet *net.IPNet, locID []byte) error {
-	maskLen, _ := ipnet.Mask.Size()
+	maskLen, maskBits := ipnet.Mask.Size()
 	copiedLocID, err := copyLocID(locID)
 	if err != nil {
 		return err
 	}
+	// a default route is the whole family: ::/0, and 0.0.0.0/0 (also written ::ffff:0.0.0.0/96);
+	// a longer prefix that merely starts at the first address (0.0.0.0/8, ::/64) is an ordinary range
+	isDefaultIPv6 := maskBits == 8*net.IPv6len && maskLen == 0
+	isDefaultIPv4 := (maskBits == 8*net.IPv4len && maskLen == 0) || (maskBits == 8*net.IPv6len && maskLen == 96)
 
-	if firstIPv6.EqualToNetIP(ipnet.IP.To16()) {
+	if isDefaultIPv6 && firstIPv6.EqualToNetIP(ipnet.IP.To16()) {
 		// it is ::/0
 		r.hasDefaultIPv6Range = true
 		defaultIPv6Location := rangeLocation{
@@ -170,7 +174,7 @@ func (r *Rearranger) AddLocation(ipnet *net.IPNet, locID []byte) error {
 			pointKind:  pointKindStart,
 			location:   defaultIPv6Location,
 		})
-	} else if firstIPv4.EqualToNetIP(ipnet.IP.To16()) {
+	} else if isDefaultIPv4 && firstIPv4.EqualToNetIP(ipnet.IP.To16()) {
 		// it is 0.0.0.0/0
 		r.hasDefaultIPv4Range = true
 		r.points = append(r.points, &RangePoint{
